@@ -15,7 +15,7 @@ SLICE_PRIMS = ["u8", "i8", "u16", "i16", "u32", "i32", "u64", "i64", "usize", "i
 
 
 class Module:
-    def __init__(self, rng, n_enums=2, n_structs=3):
+    def __init__(self, rng, n_enums=2, n_structs=3, profile="c"):
         self.rng = rng
         self.enums, self.structs = {}, {}
         for i in range(n_enums):
@@ -40,11 +40,17 @@ class Module:
                     t = ("enum", rng.choice(list(self.enums)))
                 elif r < 0.86 and self.structs:
                     t = ("struct", rng.choice(list(self.structs)))
+                elif profile == "kotlin":
+                    t = ("prim", rng.choice(["u8", "i64", "f32", "bool", "usize"]))
                 else:
                     inner = rng.choice([("prim", rng.choice(["u8", "i32", "f64", "bool", "u16"])), ("enum", rng.choice(list(self.enums)))])
                     t = ("opt", "dipl", inner)
                 fields.append((f"f{j}", t))
             self.structs[f"St{i}"] = fields
+        if profile != "kotlin":
+            # optional fields before and between non-optional ones (field order is part of the layout)
+            e0 = list(self.enums)[0]
+            self.structs[f"St{n_structs}"] = [("f0", ("opt", "dipl", ("prim", "u8"))), ("f1", ("prim", "u32")), ("f2", ("opt", "dipl", ("enum", e0))), ("f3", ("prim", "i16"))]
 
     # ---------------- values
     def rand_value(self, ty, depth=0):
@@ -366,18 +372,46 @@ def gen_methods(mod, n, rng, profile="c"):
             arm = lambda ok: rng.choice([("unit",), prim(), ("enum", rng.choice(enums)), ("struct", rng.choice(structs)), ("zst",)] + ([("obox",)] if ok else []))
             return ("res", arm(True), arm(False))
         return ("ordering",)
+    def allowed(t, is_ret=False):
+        """restrict to what a backend's own feature profile accepts (decided by trying; see C07)"""
+        if profile == "c":
+            return True
+        k = t[0]
+        if profile == "dart":
+            if k in ("optslice", "optstr"): return False
+            if k in ("slice", "str") and t[2] == "box": return False
+            if k == "zst" or (k == "res" and ("zst",) in t[1:]): return False
+            return True
+        if profile == "kotlin":
+            if k in ("optslice", "optstr", "zst"): return False
+            if k == "opt" and not is_ret: return False
+            if k in ("slice", "str") and t[2] != "ref": return False
+            if k == "str" and t[1] == "utf8": return False
+            if k == "res": return t[2] == ("unit",) and allowed(t[1], True) and t[1][0] != "zst"
+            if k == "opt": return t[2][0] == "prim"
+            if k == "struct": return all(ft[0] != "opt" for _, ft in mod.structs[t[1]])
+            if k in ("orefret", "orefopt", "ordering"): return False
+            return True
+        return True
     methods = []
     for i in range(n):
         self_kind = rng.choice([None, "ref", "ref", "mut"])
         ps = [(f"p{j}", param()) for j in range(rng.randint(0, 4))]
+        ps = [(nm, t) for nm, t in ps if allowed(t)]
         if self_kind == "mut":
             ps = [(nm, t) for nm, t in ps if t[0] not in ("oref", "oopt")] + []
         r = ret(self_kind == "ref")
+        for _ in range(20):
+            if allowed(r, True):
+                break
+            r = ret(self_kind == "ref")
+        else:
+            r = ("prim", "u8")
         write = rng.random() < 0.15 and (r[0] == "unit" or (r[0] == "res" and r[1][0] == "unit"))
         if i == 0:
             r, write = ("unit",), True                       # every bridge has write-out methods of both shapes
         elif i == 1:
-            r, write = ("res", ("unit",), rng.choice([("enum", rng.choice(enums)), prim()])), True
+            r, write = ("res", ("unit",), rng.choice([("enum", rng.choice(enums)), prim()]) if profile != "kotlin" else ("unit",)), True
         methods.append({"name": f"m{i}", "self": self_kind, "params": ps, "ret": r, "write": write,
                         "rets": [mod.rand_value(r) for _ in range(3)] if r[0] not in ("orefret", "orefopt") else [None, None, None]})
     return methods
